@@ -465,7 +465,10 @@ class Gen(object):
             seed = r.choice(F.seeds_for(F.ACCS[a][2]))
             terms = F.terms_for(F.ACCS[a][2])
             term = r.choice(terms) if terms and r.random() < 0.35 else None
-            return [{'op': 'scan', 'fn': a, 'seed': seed, 'reduce': r.random() < 0.5, 'term': term}]
+            node = {'op': 'scan', 'fn': a, 'seed': seed, 'reduce': r.random() < 0.5, 'term': term}
+            if term is not None and r.random() < 0.08:
+                node['tff'] = True
+            return [node]
         if op == 'count':
             return [{'op': 'count', 'reduce': r.random() < 0.5}]
         if op in MATH:
@@ -739,6 +742,8 @@ def build_node(node, ctx, mode, path, i):
             f = _faulty(ctx, site, f, 1)
         seed = F.SEEDS[node['seed']][0]()
         term = F.TERMS[node['term']][0] if node.get('term') else None
+        if term is not None and node.get('tff'):
+            term = F.FalsyFn(term)          # the terminator as a callable object with a false truth value
         return rs.ops.scan(f, seed, reduce=bool(node.get('reduce')), terminator=term)
     if op == 'count':
         return rs.ops.count(reduce=bool(node.get('reduce')))
